@@ -204,13 +204,36 @@ def family(tier, ks):
     pn = id_pairs + [p for p in pn if p not in id_pairs]
     must_pairs = [(ra_w, ra_r), (ra_r, ra_w), (rb_w, rb_r), (rb_r, rb_w), (ra_w, ra_w), (rb_w, rb_w2), (rb_w2, ra_w)]
     pc = must_pairs + [p for p in pc if p not in must_pairs]
+    # must-have triples: a resource holder sharing its stage with a task that touches no resource,
+    # followed by a task that conflicts with the holder through the resource ONLY (disjoint
+    # components): what the running stage claimed on resources must survive every task of the stage
+    def comp_access(k):
+        a = {}
+        for c, vk in k["views"] + k["entry"]:
+            m = claim(vk)
+            a[c] = "w" if (a.get(c) == "w" or m == "w") else "r"
+        return a
+    def comp_conflict(a, b):
+        A, B = comp_access(a), comp_access(b)
+        return any(c in B and (m == "w" or B[c] == "w") for c, m in A.items())
+    res_tr = []
+    plain = [i for i in idx if not ks[i]["par"] and not ks[i]["entry"] and ks[i]["filter"] == ["none"]]
+    for a, b, c in itertools.product(plain, repeat=3):
+        ka, kb, kc = ks[a], ks[b], ks[c]
+        if ka["res"] and ka["views"] and not kb["res"] and kb["views"] and kc["res"] and kc["views"] \
+           and not conflict(ka, kb) and conflict(ka, kc) and not comp_conflict(ka, kc) and not conflict(kb, kc) \
+           and all(vk in ("ref", "mut") for _, vk in ka["views"] + kb["views"]):
+            res_tr.append((a, b, c))
+            res_tr.append((b, a, c))
+    rnd.shuffle(res_tr)
+    triples = [t for t in triples if t not in res_tr]
     if tier == "quick":
         pairs = pc[:36] + pn[:40]
-        triples = triples[:40]
+        triples = res_tr[:8] + triples[:36]
         quads = qa[:8] + qb[:4]
     else:
         pairs = pc[:300] + pn[:300]
-        triples = triples[:340]
+        triples = res_tr[:60] + triples[:300]
         quads = qa[:48] + qb[:24]
     return [("p%03d" % i, p) for i, p in enumerate(pairs)] + [("t%03d" % i, t) for i, t in enumerate(triples)] + \
            [("q%03d" % i, q) for i, q in enumerate(quads)]
